@@ -22,6 +22,19 @@ does with it:
 * disc / cond cells: real generators: same rng state -> bit-identical draws, global numpy state
   untouched, N=1 -> CUQIarray with the distribution's geometry, N>1 -> Samples with N columns,
   conditional distributions refuse to sample.
+* how the generator is handed over (facet of every family and every N): ``sample(N, rng=r)`` is the
+  baseline on which the laws above are decided; ``sample(N, r)`` (positional second argument) is executed
+  with the same owned stream / recorder / proposal alphabet and must issue the very same generator
+  requests and return the very same draws without touching a global numpy function; with real generators
+  (disc / derived cells) ``sample(N, r)``, ``sample(N=N, rng=r)`` and ``sample(rng=r)`` must give the
+  draws of the baseline from an equal generator state, leave the generator in the same (advanced) state
+  and leave the global numpy state alone.  Refusing a call form with TypeError is accepted.
+* derived cells: the same discipline on objects obtained from other objects: fully conditioned
+  conditionals (all at once / conditioned again / one variable at a time in every order must draw
+  identically from equal generator states), members and reductions of a JointDistribution against the
+  stand-alone distribution, Lognormal as a joint member, a UserDefinedDistribution whose sample_func is a
+  script (the API hands it no generator: every call form returns the script), density-only gallery
+  members (refuse).
 """
 import contextlib
 import itertools
@@ -36,19 +49,27 @@ from vfw.stream import (Stream, Decisions, explore, affine_probe, UnownedRandomn
 PROPERTY = "C05"
 RULE = ("cells = (Gaussian: parameterisation x matrix form x dim) + (Lognormal form x dim) + gallery + "
         "(GMRF: physical_dim x n x bc x order) + (generator family x parameter-form x dim) + "
-        "(MHN: alpha x beta x gamma, internal sampler and public path) + (discipline objects) + (conditionals); "
-        "inside a cell every mean kind x N in {1,2,3} x {rng=, global numpy} is executed on the complete "
-        "standard-normal basis / the whole proposal alphabet / the whole grid; a cell is non-trivial when the "
-        "object was constructed and at least one draw was compared with the object's own density")
+        "(MHN: alpha x beta x gamma, internal sampler and public path) + (discipline objects) + (conditionals) + "
+        "(derived objects: conditioned conditionals, joint members/reductions, scripted user-defined sampler, gallery); "
+        "inside a cell every mean kind x N in {1,2,3} x {rng= keyword, rng positional, global numpy} is executed: the "
+        "keyword and global forms on the complete standard-normal basis / the whole proposal alphabet / the whole grid, "
+        "the positional form differentially against the keyword form on the same owned stream (zero + generic noise vector "
+        "/ recorded generator calls / whole proposal alphabet); discipline and derived cells run real generators through "
+        "the call forms sample(N, rng=r), sample(N, r), sample(N=N, rng=r), sample(rng=r); a cell is non-trivial when the "
+        "object was constructed and at least one draw was compared with the object's own density / the baseline call form")
 BOUND = {
     "quick": "one value catalogue (seed % 3). Gaussian: 4 parameterisations x 9 matrix forms {scalar, vector, diag, lower, "
              "upper, non-symmetric full, sparse(triangular/banded), sparse(full), sparse diag} x dim {1,2,3} x mean {vector, scalar} "
-             "x N {1,2,3} x {rng=, global numpy}, plus dim 76 (above the sparse switch) with N {1,2}; Lognormal 4 forms x dim "
+             "x N {1,2,3} x {rng= keyword, rng positional, global numpy}, plus dim 76 (above the sparse switch) with N {1,2}; Lognormal 4 forms x dim "
              "{1,2,3}; gallery BivariateGaussian; GMRF 1-D n=2..6 and 2-D 2x2, 3x3 x bc {zero, periodic, neumann} x order "
-             "{0,1,2}; 7 generator families x all scalar/vector parameter forms x dim {1,2,3} x N {1,2,3} x 2 paths on 4^dim..5^dim "
-             "grids; MHN internal sampler 5 alpha x 2 beta x 6 gamma and public path 5 x 2 x 6, 8-point proposal alphabets, "
-             "complete decision trees; 48 discipline objects x N {1,2,3} x 3 rng kinds; 19 conditional objects x all proper "
-             "subsets of their conditioning variables",
+             "{0,1,2}; 7 generator families x all scalar/vector parameter forms x dim {1,2,3} x N {1,2,3} x 3 paths (law on 4^dim..5^dim "
+             "grids for keyword and global, recorded calls and draws of the positional form equal to the keyword form); MHN "
+             "internal sampler 5 alpha x 2 beta x 6 gamma (keyword, global) and public path 5 x 2 x 6 (keyword, positional, "
+             "global), 8-point proposal alphabets, complete decision trees (positional: whole alphabet, accept branch); "
+             "48 discipline objects x N {1,2,3} x 3 rng kinds {RandomState, advanced RandomState, Generator} x 4 call forms; "
+             "21 conditional objects x all proper subsets of their conditioning variables; 34 derived objects (21 conditioned "
+             "conditionals with all conditioning orders, 6 joint members/reductions, 1 scripted user-defined sampler, 6 "
+             "density-only gallery members) x N {1,2,3} x 3 rng kinds x 4 call forms x {keyword, positional} per alternative route",
     "thorough": "all three value catalogues; Gaussian dims 76 and 77 with N {1,2,3}; GMRF 1-D n=2..9 and n=76, 2-D up to 4x4; "
                 "12-point MHN alphabets; otherwise as quick",
 }
@@ -65,6 +86,16 @@ ASSUMPTIONS = [
     "MHN: the first proposal of a draw is enumerated over the alphabet; later proposals are checked to repeat the same "
     "generator request (i.i.d. proposals); the transform derivative is read by Richardson differences (1e-6)",
     "values outside the catalogues/alphabets and dimensions other than {1,2,3,76,77} are not covered",
+    "the positional call form sample(N, r) is decided differentially: its law is the law identified for sample(N, rng=r) once "
+    "the same owned stream gives the same requests and bit-identical draws (zero noise and one generic noise vector for the "
+    "affine samplers; tagged generator answers for the generator families; every first proposal of the alphabet for MHN)",
+    "refusing a call form other than sample(N, rng=r) with TypeError/NotImplementedError is accepted; generator types a "
+    "family cannot use (numpy Generator for randn-based samplers) are accepted refusals",
+    "UserDefinedDistribution: the API hands no generator to sample_func, so only 'every call form returns the user's script "
+    "and leaves the global stream alone' is decided; a sample_func that itself draws from numpy's global stream is outside "
+    "the statement's reach",
+    "alternative routes to a derived object (conditioning order, joint reduction, stand-alone construction with the same "
+    "parameters) are required to draw bit-identically from equal generator states: same class, same parameters",
 ]
 
 TOL_OWN = 1e-7      # quantities read from the object's logpdf by exact differences
@@ -1675,9 +1706,68 @@ def _eval_cond(cell, res):
     except Exception as e:
         res.refused += 1
         res.outcomes.add("conditioned-refused:%s" % type(e).__name__)
+    # differential oracle: the fully conditioned object is the distribution one gets by passing the same values directly
+    direct = _cond_direct().get(cell["spec"])
+    if direct is not None:
+        try:
+            done, twin = d(**full), direct()
+        except Exception as e:
+            res.outcomes.add("direct-twin-refused:%s" % type(e).__name__)
+            done = twin = None
+        if done is not None:
+            res.transitions += 2
+            res.state("conditioned-vs-direct")
+            obs = []
+            for o in (done, twin):
+                try:
+                    sm = np.asarray(o.sample(3, rng=np.random.RandomState(1)).samples, float)
+                except Exception as e:
+                    sm = "raises:" + type(e).__name__
+                try:
+                    lp = float(np.asarray(o.logpdf(np.arange(1, (twin.dim or 1) + 1) * 0.25)).ravel()[0])
+                except Exception as e:
+                    lp = "raises:" + type(e).__name__
+                obs.append((sm, lp))
+            (sa, la), (sb, lb) = obs
+            same_s = (isinstance(sa, str) and sa == sb) or (not isinstance(sa, str) and not isinstance(sb, str) and sa.shape == sb.shape and close(sa, sb, 1e-12))
+            same_l = (isinstance(la, str) and la == lb) or (not isinstance(la, str) and not isinstance(lb, str) and close(la, lb, 1e-12))
+            if not (same_s and same_l) and not isinstance(sb, str):
+                res.fail("C05|%s|conditioned-vs-direct|%s" % (fam, facet), "the fully conditioned distribution does not draw / report its density like the "
+                         "same distribution constructed directly from the same values: draws %s vs %s, logpdf %r vs %r"
+                         % (sa if isinstance(sa, str) else sa[:, 0], sb if isinstance(sb, str) else sb[:, 0], la, lb))
+            res.outcomes.add("conditioned-vs-direct:%s" % (same_s and same_l))
     res.traces += 1
     res.evaluations += 1
     return res
+
+
+def _cond_direct():
+    """spec -> constructor of the non-conditional twin (same family, same values given directly, same geometry option)."""
+    import cuqi
+    D = cuqi.distribution
+    one = np.ones(2)
+    return {
+        "Gaussian/mean=None": lambda: D.Gaussian(one, 1.0, geometry=2),
+        "Gaussian/mean=callable": lambda: D.Gaussian(2.0 * one, 1.0),
+        "Gaussian/cov=callable": lambda: D.Gaussian(np.zeros(2), cov=2.0),
+        "Gaussian/prec=callable": lambda: D.Gaussian(np.zeros(2), prec=2.0),
+        "Gaussian/sqrtprec=callable": lambda: D.Gaussian(np.zeros(2), sqrtprec=2.0),
+        "Gaussian/two,geometry": lambda: D.Gaussian(one, cov=2.0, geometry=2),
+        "Normal/two": lambda: D.Normal(0.5, 2.0),
+        "GMRF/prec=callable": lambda: D.GMRF(np.zeros(4), 2.0, geometry=4),
+        "GMRF/prec=None": lambda: D.GMRF(np.zeros(4), 2.0, geometry=4),
+        "Lognormal/mean=None": lambda: D.Lognormal(one, 1.0, geometry=2),
+        "Normal/mean=None": lambda: D.Normal(0.5, 1.0),
+        "Normal/std=callable": lambda: D.Normal(0.0, 2.0),
+        "Gamma/shape=callable": lambda: D.Gamma(2.0, 1.0),
+        "Gamma/rate=None": lambda: D.Gamma(2.0, 2.0),
+        "Laplace/location=None": lambda: D.Laplace(one, 1.0, geometry=2),
+        "Uniform/low=None": lambda: D.Uniform(-one, 1.0, geometry=2),
+        "Beta/alpha=None": lambda: D.Beta(2 * one, 1.0, geometry=2),
+        "InverseGamma/shape=None": lambda: D.InverseGamma(2 * one, 0.0, 1.0, geometry=2),
+        "Cauchy/location=None": lambda: D.Cauchy(one, 1.0, geometry=2),
+        "Cauchy/scale=callable": lambda: D.Cauchy(0.0, 2.0),
+    }
 
 
 # ---- objects derived from other objects: conditioning calls, joint distributions, user-defined samplers ---------------
